@@ -28,7 +28,9 @@ class ObjFlow:
     A state is a dict field -> value id, '*' for unmentioned fields, '$<local>' for bool results of
     fragment calls (so that `if !prepare(..) { return }` prunes the states of the failing paths)."""
 
-    def __init__(self, prog, fn, designator, adt_suffix, init=DEFAULT, depth=0):
+    def __init__(self, prog, fn, designator, adt_suffix, init=DEFAULT, depth=0, with_lits=False):
+        self.with_lits = with_lits
+        self._pg = None
         self.prog = prog
         self.fn = fn
         self.a = prog.an[fn.key]
@@ -227,7 +229,35 @@ class ObjFlow:
                 x["*"] = op
         return cur
 
+    def _edge_lits(self, b, succ):
+        """literals of the CFG edge b -> succ (from the product graph; only when every node of b agrees)"""
+        if self._pg is None:
+            from .pg import PG
+            self._pg = PG(self.prog, self.fn)
+        g = self._pg
+        found = None
+        for n in g.by_block.get(b, []):
+            for m, lits in g.edges[n] or []:
+                if g.nodes[m][0] == succ:
+                    ls = tuple(lits)
+                    if found is None:
+                        found = ls
+                    elif found != ls:
+                        return ()
+        return found or ()
+
     def _edge_filter(self, b, succ, states):
+        if self.with_lits:
+            ls = self._edge_lits(b, succ)
+            if ls:
+                key = "$lit:%d:%d" % (b, succ)
+                v = self.vid(("lits", ls))
+                out = []
+                for st in states:
+                    d = dict(st)
+                    d[key] = v
+                    out.append(freeze(d))
+                states = frozenset(out)
         t = self.fn.body.blocks[b]["term"]
         if t["k"] != "switch" or t.get("ty") != "bool":
             return states
@@ -290,6 +320,12 @@ class ObjFlow:
             d = {k: self.vals[i] for k, i in st if not k.startswith("$") or (with_ret and k == "$0")}
             if d.get("*") == UNINIT:
                 continue
+            if self.with_lits:
+                ls = []
+                for k, i in st:
+                    if k.startswith("$lit:"):
+                        ls += [l for l in self.vals[i][1] if l not in ls]
+                d["$lits"] = tuple(ls)
             if d not in out:
                 out.append(d)
         return out
@@ -299,9 +335,10 @@ _rt_cache = {}
 _frag_cache = {}
 
 
-def return_template(prog, fn, adt, depth=0):
-    """States of the object a function returns (directly or as Some(obj)), over its parameters."""
-    key = (id(prog), fn.key, adt)
+def return_template(prog, fn, adt, depth=0, with_lits=False):
+    """States of the object a function returns (directly or as Some(obj)), over its parameters. with_lits: each state
+    also carries, under "$lits", the branch literals of the paths that produce it."""
+    key = (id(prog), fn.key, adt, with_lits)
     if key in _rt_cache:
         return _rt_cache[key]
     _rt_cache[key] = None
@@ -327,7 +364,7 @@ def return_template(prog, fn, adt, depth=0):
                     if x not in objs:
                         objs.append(x)
         for D in objs:
-            fl = ObjFlow(prog, fn, D, adt, UNINIT if D[0] == "local" else UNCHANGED, depth)
+            fl = ObjFlow(prog, fn, D, adt, UNINIT if D[0] == "local" else UNCHANGED, depth, with_lits)
             for st in fl.states_at((bi, "term")) or []:
                 if st not in out:
                     out.append(st)
